@@ -36,6 +36,7 @@ Full statement / proved / missing
   placeholder, module index, definition into the context's loader, the dependency loader answering what `SetEntry`
   returns — fix 80f753b) is evaluated symbolically; found ⇔ the module's file defines the name, errors name that file,
   the file is the only read.
+  `C15_absent_module`: no file anywhere on the route ⇒ `notfound`, no read, placeholders only.
 * missing: the "if" half for deeper names, type sets and ancestors that exist (type-set parent search); it is false as
   stated for layouts that define one name twice (`C15_duplicate_redefine`, known finding C15-duplicate-redefine) and the
   error of a misnamed file carries no line (`C15_misnamed_no_line`, known finding C15-misnamed-no-line).  Termination
@@ -338,6 +339,22 @@ theorem C15_found_iff_dependency (cfg : Cfg) (mod : String) (hv : cfg.via = .d) 
     rw [hi] at h'; cases h'; exact hb
   · intro hb; exact ⟨p, ps, hi, hb⟩
 
+/-- a module-relative name with no file anywhere on its route (global loader: `Mod::X`, `Mod`; module: `Mod::X`,
+    `init_typeset`): `notfound`, nothing is read, and the only change is a placeholder for that name in the two loaders
+    that were asked -/
+theorem C15_absent_module (cfg : Cfg) (mod : String) (hv : cfg.via = .m mod) (hm : isGlobalMod mod = false)
+    (a b : String) (s : St) (n : Nat)
+    (hparts : partsOf [a, b] = some [mod, lowerS b]) (hparts1 : partsOf [a] = some [mod])
+    (hsys : sysLoad [a, b] = none)
+    (hg1 : s.get .g (keyOf [a, b]) = none) (hg2 : s.get .g (keyOf [a]) = none)
+    (hm1 : s.get (.m mod) (keyOf [a, b]) = none) (hm2 : s.get (.m mod) (keyOf [a]) = none)
+    (hi1 : idx cfg .g (keyOf [a, b]) = []) (hi2 : idx cfg .g (keyOf [a]) = [])
+    (hi3 : idx cfg (.m mod) (keyOf [a, b]) = []) (hi4 : idx cfg (.m mod) ["init_typeset"] = []) :
+    loadS (n+9) cfg s [a, b] = (.notfound, (s.put .g (keyOf [a, b]) none).put (.m mod) (keyOf [a, b]) none) ∧
+    (loadS (n+9) cfg s [a, b]).2.reads = s.reads := by
+  have h := module_absent cfg mod hv hm a b s n hparts hparts1 hsys hg1 hg2 hm1 hm2 hi1 hi2 hi3 hi4
+  exact ⟨h, by rw [h]; rfl⟩
+
 def modCfg (via : Lid) : Cfg :=
   { mods := ["other", "mymod"], via := via,
     tree := [(["modules", "mymod", "types", "Thing.pp"], .typ .alias ["Mymod", "Thing"] []),
@@ -353,7 +370,10 @@ example : partsOf ["MYMOD", "thing"] = some ["mymod", lowerS "thing"] ∧ sysLoa
     (loadS 11 (modCfg .d) {} ["MYMOD", "thing"]).1 = .found ⟨.alias, ["Mymod", "Thing"]⟩ ∧
     (loadS 11 (modCfg .d) {} ["Mymod", "Bad"]).1 =
       .failed (.reported "PARSE_ERROR" (some ["modules", "mymod", "types", "bad.pp"]) 2) ∧
-    (loadS 11 (modCfg .d) {} ["other", "THING"]).1 = .found ⟨.alias, ["other", "THING"]⟩ := by
+    (loadS 11 (modCfg .d) {} ["other", "THING"]).1 = .found ⟨.alias, ["other", "THING"]⟩ ∧
+    partsOf ["Mymod"] = some ["mymod"] ∧ idx (modCfg (.m "mymod")) (.m "mymod") ["init_typeset"] = [] ∧
+    idx (modCfg (.m "mymod")) (.m "mymod") (keyOf ["Mymod", "Nope"]) = [] ∧
+    (loadS 9 (modCfg (.m "mymod")) {} ["Mymod", "Nope"]).1 = .notfound := by
   decide
 
 /-! ## negation witnesses for the known findings -/
